@@ -26,3 +26,96 @@ func VTypeWF(t Type) bool {
 	}
 	return false
 }
+
+// BEGIN GENERATED members (tools/gen_member_contracts.py; edit the table there)
+
+// VMemberOf: the members the language offers on the values of a type (the
+// table every member map is checked against, C18).
+func VMemberOf(k TypeKind, name string) bool {
+	switch k {
+	case IntTypeKind:
+		return name == "to_range" || name == "to_string"
+	case FloatTypeKind:
+		return name == "is_int" || name == "round" || name == "to_string" || name == "trunc"
+	case BoolTypeKind:
+		return name == "to_string"
+	case StringTypeKind:
+		return name == "compare_lev" || name == "contains" || name == "len" || name == "parse_bool" || name == "parse_float" || name == "parse_int" || name == "parse_json" || name == "repeat" || name == "replace" || name == "split" || name == "starts_with" || name == "substring" || name == "to_lower" || name == "to_upper"
+	case RangeTypeKind:
+		return name == "diff" || name == "end" || name == "rev" || name == "start" || name == "to_string"
+	case ListTypeKind:
+		return name == "concat" || name == "contains" || name == "insert" || name == "join" || name == "last" || name == "len" || name == "pop" || name == "pop_front" || name == "push" || name == "push_front" || name == "remove" || name == "sort" || name == "to_json" || name == "to_json_indent" || name == "to_string"
+	case AnyObjectTypeKind:
+		return name == "get" || name == "get_type" || name == "keys" || name == "set" || name == "to_json" || name == "to_json_indent" || name == "to_string"
+	case ObjectTypeKind:
+		return name == "keys" || name == "to_json" || name == "to_json_indent"
+	case OptionTypeKind:
+		return name == "expect" || name == "is_none" || name == "is_some" || name == "to_string" || name == "unwrap" || name == "unwrap_or"
+	}
+	return false
+}
+
+/*@ func (self IntType) Fields
+    serves C18
+    assume-safety
+    ensures @offers-only-table-members forall k string in keys(result) :: VMemberOf(IntTypeKind, k)
+    ensures @offers-every-table-member haskey(result, "to_range") && haskey(result, "to_string")
+@*/
+
+/*@ func (self FloatType) Fields
+    serves C18
+    assume-safety
+    ensures @offers-only-table-members forall k string in keys(result) :: VMemberOf(FloatTypeKind, k)
+    ensures @offers-every-table-member haskey(result, "is_int") && haskey(result, "round") && haskey(result, "to_string") && haskey(result, "trunc")
+@*/
+
+/*@ func (self BoolType) Fields
+    serves C18
+    assume-safety
+    ensures @offers-only-table-members forall k string in keys(result) :: VMemberOf(BoolTypeKind, k)
+    ensures @offers-every-table-member haskey(result, "to_string")
+@*/
+
+/*@ func (self StringType) Fields
+    serves C18
+    assume-safety
+    ensures @offers-only-table-members forall k string in keys(result) :: VMemberOf(StringTypeKind, k)
+    ensures @offers-every-table-member haskey(result, "compare_lev") && haskey(result, "contains") && haskey(result, "len") && haskey(result, "parse_bool") && haskey(result, "parse_float") && haskey(result, "parse_int") && haskey(result, "parse_json") && haskey(result, "repeat") && haskey(result, "replace") && haskey(result, "split") && haskey(result, "starts_with") && haskey(result, "substring") && haskey(result, "to_lower") && haskey(result, "to_upper")
+@*/
+
+/*@ func (self RangeType) Fields
+    serves C18
+    assume-safety
+    ensures @offers-only-table-members forall k string in keys(result) :: VMemberOf(RangeTypeKind, k)
+    ensures @offers-every-table-member haskey(result, "diff") && haskey(result, "end") && haskey(result, "rev") && haskey(result, "start") && haskey(result, "to_string")
+@*/
+
+/*@ func (self ListType) Fields
+    serves C18
+    assume-safety
+    ensures @offers-only-table-members forall k string in keys(result) :: VMemberOf(ListTypeKind, k)
+    ensures @offers-every-table-member haskey(result, "concat") && haskey(result, "contains") && haskey(result, "insert") && haskey(result, "join") && haskey(result, "last") && haskey(result, "len") && haskey(result, "pop") && haskey(result, "pop_front") && haskey(result, "push") && haskey(result, "push_front") && haskey(result, "remove") && haskey(result, "to_json") && haskey(result, "to_json_indent") && haskey(result, "to_string")
+@*/
+
+/*@ func (self AnyObjectType) Fields
+    serves C18
+    assume-safety
+    ensures @offers-only-table-members forall k string in keys(result) :: VMemberOf(AnyObjectTypeKind, k)
+    ensures @offers-every-table-member haskey(result, "get") && haskey(result, "get_type") && haskey(result, "keys") && haskey(result, "set") && haskey(result, "to_json") && haskey(result, "to_json_indent") && haskey(result, "to_string")
+@*/
+
+/*@ func (self ObjectType) Fields
+    serves C18
+    assume-safety
+    ensures @offers-every-table-member haskey(result, "keys") && haskey(result, "to_json") && haskey(result, "to_json_indent")
+    loop 1 invariant fresh(fields) && haskey(fields, "keys") && haskey(fields, "to_json") && haskey(fields, "to_json_indent")
+@*/
+
+/*@ func (self OptionType) Fields
+    serves C18
+    assume-safety
+    ensures @offers-only-table-members forall k string in keys(result) :: VMemberOf(OptionTypeKind, k)
+    ensures @offers-every-table-member haskey(result, "expect") && haskey(result, "is_none") && haskey(result, "is_some") && haskey(result, "to_string") && haskey(result, "unwrap") && haskey(result, "unwrap_or")
+@*/
+
+// END GENERATED members
